@@ -345,8 +345,44 @@ var (
 	fileSeq    atomic.Int64
 )
 
+// canary (round 6): a goroutine that does nothing but sleep 1 ms and count.  On a machine that is heavily overcommitted
+// (other checks share the cores: load averages above 200 on 16 cores were seen) a runnable goroutine of this process
+// may not get the CPU for hundreds of milliseconds, and "nothing happened for two ticks" then says nothing about the
+// provider.  A watchdog tick counts only when the canary was scheduled at least canaryNeed times during it (then
+// every runnable goroutine of the process had its turn several times); a timed wait is prolonged (patient) while it
+// was not.  A cell that meets more than maxStarved such ticks is reported as `starved` (inconclusive), never as
+// blocked.
+var canary atomic.Int64
+
+const (
+	canaryNeed = 12
+	maxStarved = 40
+)
+
+// patient waits d, and again (at most 8 times) while the process was starved during the wait
+func patient(d time.Duration) <-chan struct{} {
+	ch := make(chan struct{})
+	go func() {
+		for i := 0; i < 8; i++ {
+			c0 := canary.Load()
+			time.Sleep(d)
+			if canary.Load()-c0 >= canaryNeed {
+				break
+			}
+		}
+		close(ch)
+	}()
+	return ch
+}
+
 func setup() {
 	importOnce.Do(func() {
+		go func() {
+			for {
+				time.Sleep(time.Millisecond)
+				canary.Add(1)
+			}
+		}()
 		coreimport.Import(FS)
 		phttpimport.Import(FS)
 		grpcimport.Import(FS)
@@ -1316,6 +1352,7 @@ func runDrain(e *env) Obs {
 	t := time.NewTicker(tick)
 	defer t.Stop()
 	stuck := false
+	lastCanary, starved := canary.Load(), 0
 	for !(runReturned && consLeft == 0) && !stuck {
 		select {
 		case runErr = <-runDone:
@@ -1323,6 +1360,13 @@ func runDrain(e *env) Obs {
 		case <-consDone:
 			consLeft--
 		case <-t.C:
+			if cn := canary.Load(); cn-lastCanary < canaryNeed && starved < maxStarved {
+				lastCanary = cn
+				starved++
+				continue // the process did not get the CPU during this tick: it does not count
+			} else {
+				lastCanary = cn
+			}
 			ev, ops := events.Load(), e.io.ops.Load()
 			if ev == lastEvents {
 				still++
@@ -1344,6 +1388,8 @@ func runDrain(e *env) Obs {
 	}
 	if int(ended.Load()) == cons {
 		obs.End = "closed"
+	} else if starved >= maxStarved {
+		obs.End = "starved"
 	} else if spinning {
 		obs.End = "spinning"
 	} else {
@@ -1355,14 +1401,14 @@ func runDrain(e *env) Obs {
 			select {
 			case <-runDone:
 				runReturned = true
-			case <-time.After(tick):
+			case <-patient(tick):
 			}
 		}
 		e.io.killed.Store(true)
 		if !runReturned {
 			select {
 			case <-runDone:
-			case <-time.After(4 * tick):
+			case <-patient(4 * tick):
 			}
 		}
 	}
@@ -1445,12 +1491,20 @@ func runStall(e *env) Obs {
 	tk := time.NewTicker(tick)
 	defer tk.Stop()
 	lastT, still := tickets.Load(), 0
+	lastCanary, starved := canary.Load(), 0
 	for left := cons; left > 0 && !consBlocked; {
 		select {
 		case <-consDone:
 			left--
 			still = 0
 		case <-tk.C:
+			if cn := canary.Load(); cn-lastCanary < canaryNeed && starved < maxStarved {
+				lastCanary = cn
+				starved++
+				continue
+			} else {
+				lastCanary = cn
+			}
 			if t := tickets.Load(); t == lastT {
 				still++
 			} else {
@@ -1471,7 +1525,7 @@ func runStall(e *env) Obs {
 		select {
 		case runErr = <-runDone:
 			runReturned = true
-		case <-time.After(wait):
+		case <-patient(wait):
 		}
 	}
 	if !runReturned {
@@ -1480,7 +1534,7 @@ func runStall(e *env) Obs {
 		select {
 		case runErr = <-runDone:
 			runReturned = true
-		case <-time.After(4 * tick):
+		case <-patient(4 * tick):
 		}
 	}
 	obs.Ret = runReturned
@@ -1493,6 +1547,9 @@ func runStall(e *env) Obs {
 	obs.End = "open"
 	if consBlocked {
 		obs.End = "blocked"
+		if starved >= maxStarved {
+			obs.End = "starved"
+		}
 	}
 	if runReturned && !consBlocked {
 		type dr struct {
@@ -1520,7 +1577,7 @@ func runStall(e *env) Obs {
 			if r.closed {
 				obs.End = "closed"
 			}
-		case <-time.After(8 * tick):
+		case <-patient(8 * tick):
 		}
 	}
 	e.io.killed.Store(true)
@@ -1598,7 +1655,7 @@ func runEngine(e *env) Obs {
 		} else {
 			obs.EngErr = "other:" + squash(err.Error())
 		}
-	case <-time.After(20 * c.Tick):
+	case <-patient(20 * c.Tick):
 		hung = true
 		obs.EngErr = "hang"
 	}
@@ -1610,7 +1667,7 @@ func runEngine(e *env) Obs {
 	select {
 	case <-waited:
 		obs.Wait = true
-	case <-time.After(8 * c.Tick):
+	case <-patient(8 * c.Tick):
 		e.cancel()
 		e.io.killed.Store(true)
 	}
